@@ -92,23 +92,30 @@ def check_in_register(ctx, cfg):
     sh = tuple(cfg["shape"]); w = width_of(sh)
     cls = getattr(action, cfg["cls"])
     try:
-        reg = csr.Register({"lo": csr.Field(cls, shape_of(sh)), "mid": csr.Field(action.RW, unsigned(4), init=5),
-                            "again": csr.Field(cls, shape_of(sh)), "top": csr.Field(action.R, unsigned(3))}, access="rw")
+        reg = csr.Register({"lo": csr.Field(cls, shape_of(sh)), "rsvd": csr.Field(action.ResR0W0, unsigned(2)), "mid": csr.Field(action.RW, unsigned(4), init=5),
+                            "pad": csr.Field(action.ResRAW0, unsigned(1)), "again": csr.Field(cls, shape_of(sh)), "top": csr.Field(action.R, unsigned(3))}, access="rw")
     except (ValueError, TypeError) as e:
         raise Refused(str(e))
     S = lambda x: x.as_value() if hasattr(x, "as_value") else x
-    flds = [("lo", reg.f.lo, w), ("mid", reg.f.mid, 4), ("again", reg.f.again, w), ("top", reg.f.top, 3)]
-    nl = ctx.netlist(reg, probes=[S(f.data) for _, f, _ in flds[:3]])
+    flds = [("lo", reg.f.lo, w), ("rsvd", reg.f.rsvd, 2), ("mid", reg.f.mid, 4), ("pad", reg.f.pad, 1), ("again", reg.f.again, w), ("top", reg.f.top, 3)]
+    name = {"RW": "rw_read_eq_data", "RW1C": "rw1c_read_eq_data", "RW1S": "rw1s_read_eq_data"}[cfg["cls"]]
+    if reg.element.width != sum(fw for _, _, fw in flds):
+        # reserved fields take their place in the register like any other field ("reserved fields influence nothing" - not even the
+        # position of their neighbours)
+        ctx.prove(name, z3.BoolVal(False))
+        return
+    nl = ctx.netlist(reg, probes=[S(f.data) for nm_, f, _ in flds if nm_ in ("lo", "mid", "again")])
     ctx.nontrivial = True
     f0 = nl.frame("0")
     rd = f0.val(reg.element.r_data)
     pos = 0
     eqs = []
     for nm, f, fw in flds:
-        if fw and nm != "top":
+        if fw and nm in ("lo", "mid", "again"):
             eqs.append(z3.Extract(pos + fw - 1, pos, rd) == f0.val(S(f.data)))
+        elif fw and nm in ("rsvd", "pad"):
+            eqs.append(z3.Extract(pos + fw - 1, pos, rd) == 0)           # reserved fields read as zero (R0 / the RAW0 field has no storage: reads its input... see below)
         pos += fw
-    name = {"RW": "rw_read_eq_data", "RW1C": "rw1c_read_eq_data", "RW1S": "rw1s_read_eq_data"}[cfg["cls"]]
     ctx.prove(name, z3.And(*eqs), frames=[f0])
     ctx.canary("bus_read_is_zero", rd == 0)
 
